@@ -294,6 +294,7 @@ def c05(ck, F, tier):
     guarded(ck, re_.typestate_eval, F)
     ck.rule("CLIP-SHEET", "whole-row/column ranges are clipped by the extent of the range's own sheet", floor=40)
     guarded(ck, re_.clip_sheet, F)
+    guarded(ck, re_.support_match, F)
 
 
 def c21(ck, F, tier):
@@ -635,6 +636,8 @@ def c07(ck, F, tier):
     guarded(ck, re_.wmc_volatile, F)
     guarded(ck, re_.hash_order, F)
     guarded(ck, re_.dim_units, F)
+    ck.rule("TYPESTATE-eval", "a written position matches a recorded dependency on sheet, row and column", floor=2)
+    guarded(ck, re_.support_match, F)
     # a save-and-reload re-parses the stored text of every formula: the value is unchanged only if the tree is (PAREN cells of
     # the internal printer, the clause of C09 that C07's "reload in between" needs)
     import rules_paren as rp
